@@ -2,6 +2,7 @@ import ComposeVerif.Ops.Common
 import ComposeVerif.Model.Paths
 import ComposeVerif.Spec.Paths
 import ComposeVerif.Model.PathsOrigin
+import ComposeVerif.Model.PathsSymlink
 /-! line-protocol ops for C12: `c12.join`, `c12.winabs`, `c12.remote`, `c12.resolve`, `c12.spec` -/
 open Lean
 namespace CV.Ops.C12
@@ -120,9 +121,30 @@ def specsOp : Handler := fun args =>
   | .ok (.arr a) => Json.arr (a.map specOp)
   | _ => Json.arr #[]
 
+def compsOf (j : Json) : Option (List Str) :=
+  match j with
+  | .arr a => a.toList.mapM fun x => match x with | .str c => some c.toList | _ => none
+  | _ => none
+
+/-- `utils.ResolveSymbolicLink` over a finite link table: `links = [[path comps, target comps | null], …]` -/
+def symresOp : Handler := fun args =>
+  let tab : List (List Str × Option (List Str)) := match args.getObjVal? "links" with
+    | .ok (.arr a) => a.toList.filterMap fun e => match e with
+      | .arr #[k, v] => match compsOf k with
+        | some kk => some (kk, compsOf v)
+        | none => none
+      | _ => none
+    | _ => []
+  match compsOf (getObj args "path") with
+  | none => Json.mkObj [("bad", "path")]
+  | some p =>
+    match CV.Paths.Sym.resolveSym (CV.Paths.Sym.ofTable tab) p with
+    | .ok r => Json.mkObj [("ok", Json.arr (r.map str).toArray)]
+    | .err => Json.mkObj [("err", Json.bool true)]
+
 def handlers : List (String × Handler) :=
   [("c12.join", joinOp), ("c12.winabs", winabsOp), ("c12.remote", remoteOp),
    ("c12.resolve", resolveOp), ("c12.spec", specOp), ("c12.specs", specsOp),
-   ("c12.rel", relOp), ("c12.ldir", ldirOp)]
+   ("c12.rel", relOp), ("c12.ldir", ldirOp), ("c12.symres", symresOp)]
 
 end CV.Ops.C12
